@@ -95,8 +95,11 @@ def error_mark_msg(exc, text, backend, li):
     return None
 
 
-def run_text(text):
+def run_text(text, make_input=None):
+    """make_input: optional factory returning a fresh delivery form of the text (a short-read stream) per call; positions
+    are always checked against the text itself."""
     import yaml
+    inp = make_input or (lambda: text)
     failures = []
     evals = 0
     info = {}
@@ -105,7 +108,7 @@ def run_text(text):
         evals += 2
         tokens = None
         try:
-            tokens = list(yaml.scan(text, Loader=L))
+            tokens = list(yaml.scan(inp(), Loader=L))
         except RecursionError:
             continue
         except yaml.YAMLError as e:
@@ -118,7 +121,7 @@ def run_text(text):
         events = None
         perr = None
         try:
-            events = list(yaml.parse(text, Loader=L))
+            events = list(yaml.parse(inp(), Loader=L))
         except RecursionError:
             continue
         except yaml.YAMLError as e:
@@ -192,6 +195,28 @@ def make_eval(label):
         nontrivial = nt >= 4 and any(c in text for c in "[{-:?|>\n")
         return Eval(failures, cl, nontrivial=nontrivial, ident=text, evals=evals, sample={"text": text[:300], "info": info})
     return ev
+
+
+def eval_streamed(case):
+    """The same checks with the text delivered through a short-read text stream: values and marks must not depend on
+    where the reader refills its buffer (long names and scalars straddle the refill points)."""
+    from checks.c07 import ChunkedText
+    text, schedule, pad = case
+    if pad:
+        text = "# " + "p" * pad + "\n" + text
+    failures, evals, info = run_text(text, make_input=lambda: ChunkedText(text, schedule))
+    cl = ["streamed", "streamed:padded-to-refill-boundary" if pad else "streamed:short-reads"]
+    return Eval(failures, cl, nontrivial=True, ident=(text, tuple(schedule)), evals=evals, sample={"text": text[-200:], "schedule": schedule, "pad": pad})
+
+
+def streamed_cases():
+    long_names = st.sampled_from(["- &anchor_with_a_long_name_%d [*anchor_with_a_long_name_%d, !!str &other_%d x, *other_%d]\n" % (i, i, i, i) for i in range(3)] +
+                                 ["k: &a1 'single quoted scalar of some length' \n*a1 : \"double quoted\"\n", "? &k plain key of some length\n: !local-tag-name value text\n"])
+    body = st.one_of(gi.rendered_texts(2, 8), long_names, st.tuples(long_names, gi.rendered_texts(1, 6)).map(lambda t: t[0] + "--- " + t[1] if not t[1].startswith(("%", "\ufeff", "#")) else t[0]))
+    sched = st.one_of(st.lists(st.sampled_from([1, 2, 3, 5, 7, 11, 64]), min_size=1, max_size=8), st.just([4096]))
+    # pad so that the interesting part straddles the reader's refill points (8192 and every 4096 after)
+    pad = st.sampled_from([0, 0, 4060, 4080, 4090, 8150, 8170, 8185, 12270, 12285])
+    return st.tuples(body, sched, pad)
 
 
 def enum_short(shard, nshards, tier):
@@ -348,6 +373,7 @@ def arms(tier):
         Arm("valid", make_eval("valid"), lambda: gi.rendered_texts(3, 10), quick=6000, thorough=300000),
         Arm("mutated", make_eval("mutated"), lambda: gi.mutated_texts(), quick=8000, thorough=400000),
         Arm("productions", make_eval("production"), lambda: gi.productions(), quick=6000, thorough=300000),
+        Arm("streamed", eval_streamed, streamed_cases, quick=2500, thorough=100000),
         Arm("short-strings", make_eval("short"), enum=enum_short, exhaustive=True),
         Arm("stub-tokens", eval_stub, enum=enum_stub, exhaustive=True),
         Arm("stub-random", eval_stub, lambda: st.lists(st.sampled_from(STUB_KINDS), min_size=5, max_size=14).map(tuple), quick=20000, thorough=1000000),
